@@ -121,7 +121,7 @@ class CVals:
 
 
 def run_trace(cfg, ops):
-    tmp = scratch_dir('kp')
+    tmp = scratch_dir_for('kp', json.dumps(cfg, sort_keys=True, default=repr))
     try:
         os.makedirs(os.path.join(tmp, 'store')); os.makedirs(os.path.join(tmp, 'wcwd')); os.makedirs(os.path.join(tmp, 'rcwd'))
         loc = loc_of(cfg, tmp)
@@ -248,7 +248,7 @@ def fgen(tier, idx):
 def fwork(a):
     tier, idx = a
     job = fgen(tier, idx)
-    tmp = scratch_dir('kpf')
+    tmp = scratch_dir_for('kpf', idx)
     try:
         os.makedirs(os.path.join(tmp, 'store')); os.makedirs(os.path.join(tmp, 'wcwd')); os.makedirs(os.path.join(tmp, 'rcwd'))
         job['loc'] = loc_of(job['cfg'], tmp)
